@@ -671,6 +671,25 @@ func clipS(b []byte) string {
 	return string(b[:100]) + fmt.Sprintf("…(%d bytes)…", len(b)) + string(b[len(b)-40:])
 }
 
+// replayOnly: under `check.py --replay` only the recorded case of the recorded part is run (-1: normal run,
+// -2: the replay belongs to another part).  Mandatory minimums are not declared in replay mode.
+func replayOnly(m *mon.M, label string) int {
+	v, ok := m.ReplayField("case").(float64)
+	if !ok {
+		return -1
+	}
+	if lab, _ := m.ReplayField("label").(string); lab == label || strings.HasPrefix(lab, label+"/") {
+		return int(v)
+	}
+	return -2
+}
+
+func require(m *mon.M, only int, name string, min int64) {
+	if only == -1 {
+		m.Require(name, min)
+	}
+}
+
 func report(m *mon.M, outs []caseOut) {
 	for i := range outs {
 		for _, v := range outs[i].viols {
@@ -782,19 +801,23 @@ func TestVerif_C17_Documents(t *testing.T) {
 		"with whitespace, //…\\n and /*…*/ comments (bodies from the same alphabet; empty, adjacent, final // without newline); 4 decoration densities incl. comment-free; " +
 		"segmentations whole / 1 byte / random / boundary inside markers; 4% invalid documents (error-ness only). distinct = size bucket x density x quote mode x observed features x depth")
 	n := m.N(30000, 2000000)
-	m.Require("evaluations", int64(n))
-	m.Require("docs_with_escaped_quote", int64(n/20))
-	m.Require("docs_marker_in_string_no_escaped_quote", int64(n/20))
-	m.Require("docs_string_ending_in_backslash", int64(n/50))
-	m.Require("final_line_comment_without_newline", int64(n/50))
-	m.Require("docs_with_empty_comment", int64(n/50))
-	m.Require("docs_with_adjacent_comments", int64(n/50))
-	m.Require("comment_free_docs", int64(n/50))
-	m.Require("seg_1byte", int64(n/2))
-	m.Require("seg_marker-boundary", int64(n/2))
-	m.Require("invalid_docs_checked", int64(n/100))
+	only := replayOnly(m, "doc")
+	require(m, only, "evaluations", int64(n))
+	require(m, only, "docs_with_escaped_quote", int64(n/20))
+	require(m, only, "docs_marker_in_string_no_escaped_quote", int64(n/20))
+	require(m, only, "docs_string_ending_in_backslash", int64(n/50))
+	require(m, only, "final_line_comment_without_newline", int64(n/50))
+	require(m, only, "docs_with_empty_comment", int64(n/50))
+	require(m, only, "docs_with_adjacent_comments", int64(n/50))
+	require(m, only, "comment_free_docs", int64(n/50))
+	require(m, only, "seg_1byte", int64(n/2))
+	require(m, only, "seg_marker-boundary", int64(n/2))
+	require(m, only, "invalid_docs_checked", int64(n/100))
 	outs := make([]caseOut, n)
 	mon.Parallel(n, func(w, i int) {
+		if only != -1 && i != only {
+			return
+		}
 		r := m.Rand("doc", i)
 		o := &docOpts{}
 		switch x := r.Intn(100); {
@@ -857,12 +880,16 @@ func TestVerif_C17_Large(t *testing.T) {
 		"(mid) one region of 20..60 KiB, (long-string / long-number-array / long-comment / long-whitespace) one region of 70..200 KiB without any quote or comment marker; " +
 		"segmentations whole / random / marker-boundary (+1 byte for the dense kind). distinct = kind x size bucket x segmentation")
 	n := m.N(48, 3000)
-	m.Require("evaluations", int64(n))
-	m.Require("docs_region_over_64K", int64(n/3))
-	m.Require("docs_dense_over_64K_total", int64(n/8))
+	only := replayOnly(m, "large")
+	require(m, only, "evaluations", int64(n))
+	require(m, only, "docs_region_over_64K", int64(n/3))
+	require(m, only, "docs_dense_over_64K_total", int64(n/8))
 	kinds := []string{"dense", "mid", "long-string", "long-number-array", "long-comment", "long-whitespace"}
 	outs := make([]caseOut, n)
 	mon.Parallel(n, func(w, i int) {
+		if only != -1 && i != only {
+			return
+		}
 		r := m.Rand("large", i)
 		kind := kinds[i%len(kinds)]
 		o := &docOpts{quoteMode: r.Pick(0, 1), density: 2}
@@ -1062,9 +1089,13 @@ func TestVerif_C17_ShortStrings(t *testing.T) {
 			}
 		}
 	}
-	m.Require("evaluations", int64(len(jobs)))
+	only := replayOnly(m, "short")
+	require(m, only, "evaluations", int64(len(jobs)))
 	outs := make([]caseOut, len(jobs))
 	mon.Parallel(len(jobs), func(w, i int) {
+		if only != -1 && i != only {
+			return
+		}
 		j := jobs[i]
 		r := m.Rand("short", i)
 		dec := []byte(j.c.pre + j.d.a + j.lit + j.d.b + j.c.post + j.d.end)
